@@ -118,8 +118,10 @@ class PolyplyParser(ITPDirector):
 
         n_atoms = len(block.nodes)
         res_name = block.name
-        prev_atoms = []
         links = []
+        # all terms of a section on the same atoms belong to one link, also
+        # when other interactions are listed in between them
+        link_of = {}
         for key in block.interactions:
             block_interactions = []
             for interaction in block.interactions[key]:
@@ -127,14 +129,15 @@ class PolyplyParser(ITPDirector):
                    return
 
                 if np.sum(np.array(interaction.atoms) > n_atoms - 1) > 0:
-                   if interaction.atoms != prev_atoms:
-                       prev_atoms[:] = interaction.atoms
+                   link_key = (key, tuple(interaction.atoms))
+                   if link_key not in link_of:
                        new_link = vermouth.molecule.Link()
                        new_link.interactions = defaultdict(list)
                        new_link.citations = block.citations
                        new_link.name = res_name
                        links.append(new_link)
-                   links[-1].interactions[key].append(interaction)
+                       link_of[link_key] = new_link
+                   link_of[link_key].interactions[key].append(interaction)
                 else:
                     block_interactions.append(interaction)
 
